@@ -149,6 +149,10 @@ def check_captures_shape(fn):
     last = fn.body[-1]
     if not (isinstance(last, ast.Return) and last in trues and len(trues) == 1):
         problems.append("does not end with the single `return True` (must accept exactly when no mismatch was found)")
+    early = [n for n in walk_local(fn) if isinstance(n, ast.Break)]
+    if early:
+        problems.append(f"line {early[0].lineno}: `break` leaves a loop before every condition / every captured value was judged (the conditions after it -- "
+                        "the receiver of a bound method comes last -- are accepted unseen)")
     if len(falses) == 2:
         # nested form (what the normal form gives for a conditional match): one rejection per kind of condition
         #   v.capture in captures, isinstance(v.value, MatchFunction), not v.value.fn(value)   |   ..., not isinstance(..), v.value != value
